@@ -3,6 +3,10 @@
 package server
 
 import (
+	"fmt"
+	"net"
+
+	"github.com/XiaoMi/Gaea/mysql"
 	uber_atomic "go.uber.org/atomic"
 )
 
@@ -22,4 +26,44 @@ func VerifAdminAddr(s *Server) string {
 		return ""
 	}
 	return s.adminServer.listener.Addr().String()
+}
+
+// VerifHandshakeInterleaved plays the server side of two sessions over net.Pipe in the
+// order: session A reads its handshake response (real readHandshakeResponse), session B
+// (another connection) reads one packet (real ReadEphemeralPacket: takes a buffer from the
+// process-wide pool), session A's credentials are checked (real handleHandshakeResponse).
+// build gets A's salt and returns A's handshake response payload. The result is the
+// error of A's login.
+func VerifHandshakeInterleaved(srv *Server, build func(salt []byte) []byte, bPacket []byte) error {
+	frame := func(p []byte) []byte {
+		return append([]byte{byte(len(p)), byte(len(p) >> 8), byte(len(p) >> 16), 0}, p...)
+	}
+	aSrv, aCli := net.Pipe()
+	defer aSrv.Close()
+	defer aCli.Close()
+	cc := new(Session)
+	cc.c = NewClientConn(mysql.NewConn(aSrv), srv.manager)
+	cc.proxy = srv
+	cc.manager = srv.manager
+	cc.c.proxy = srv
+	cc.executor = newSessionExecutor(srv.manager)
+	cc.executor.clientAddr = "127.0.0.1:1"
+	cc.closed.Store(false)
+	cc.executor.session = cc
+	go aCli.Write(frame(build(cc.c.salt)))
+	info, err := cc.c.readHandshakeResponse()
+	if err != nil {
+		return fmt.Errorf("readHandshakeResponse: %v", err)
+	}
+	bSrv, bCli := net.Pipe()
+	defer bSrv.Close()
+	defer bCli.Close()
+	b := mysql.NewConn(bSrv)
+	go bCli.Write(frame(bPacket))
+	if _, err := b.ReadEphemeralPacket(); err != nil {
+		return fmt.Errorf("session B read: %v", err)
+	}
+	err = cc.handleHandshakeResponse(info)
+	b.RecycleReadPacket()
+	return err
 }
